@@ -37,6 +37,11 @@ func Load(repo string, patterns []string, preludeDir string) (*Engine, error) {
 		return nil, fmt.Errorf("package load errors: %s", strings.Join(errs[:min(len(errs), 5)], "; "))
 	}
 	prog, spkgs := ssautil.Packages(pkgs, ssa.GlobalDebug)
+	for _, p := range pkgs {
+		if p.Types != nil && p.TypesInfo != nil {
+			typesInfos[p.Types] = p.TypesInfo
+		}
+	}
 	eng := &Engine{Prog: prog, Pkgs: map[string]*ssa.Package{}, Contracts: map[string]*UnitSpec{}, SpecFuns: map[string]*SpecFun{}, Lemmas: map[string]*SpecFun{}, Consts: map[string]string{}, Funcs: map[string]*ssa.Function{}, GlobalGhosts: map[string]string{"$held": "intset"}}
 	if len(pkgs) > 0 {
 		eng.Fset = pkgs[0].Fset
@@ -359,7 +364,7 @@ func (u *Unit) checkReturn(f *Frame, rst *State, rets []Val) {
 			extra["result"] = tv
 		}
 	}
-	penv := &Env{u: u, st: rst, old: u.entry, bound: map[string]boundVar{}, qctr: &u.qctr}
+	penv := &Env{u: u, st: rst, old: u.entry, bound: map[string]boundVar{}, qctr: &u.qctr, fn: fn}
 	if fn.Pkg != nil {
 		penv.pkg = fn.Pkg.Pkg
 	} else if rootFn(fn).Pkg != nil {
